@@ -41,7 +41,8 @@ Inductive node :=
 | NOp3 (f : nat) (dirty : bool) (cache : Z) (a b c : node).
 
 Inductive subscriber :=
-| SObs (label : nat) (act : option nat)    (* a user observer; act = Some q: it also calls q.set(first payload value) *)
+| SObs (label : nat) (act : option (bool * nat))
+      (* a user observer; act = Some (false, q): it also calls q.set(first payload value); Some (true, q): q.reset() *)
 | SNode (b : nat) (leaf : nat).            (* the slot of PropertyNode `leaf` of binding b; the table's kind tells which of its three slots *)
 
 Record table := {
@@ -77,7 +78,7 @@ Inductive wpath := WSet | WAssign | WStream.      (* set(), operator=, operator>
 Inductive op :=
 | PNew (p : nat) (v : Z) | PDel (p : nat)
 | PSet (p : nat) (v : Z) (path : wpath) | PGet (p : nat) | PHasBinding (p : nat)
-| PObserve (p : nat) (k : sigkind) (label : nat) (h : nat) (act : option nat) | PUnobserve (h : nat)
+| PObserve (p : nat) (k : sigkind) (label : nat) (h : nat) (act : option (bool * nat)) | PUnobserve (h : nat)
 | PAssignFrom (p q : nat)                        (* p = q.get(): operator= with a reference into q *)
 | PBind (p : nat) (e : expr) (m : mode)          (* p = makeBinding(...): creates p (makeBoundProperty) if it does not exist *)
 | PReset (p : nat)
@@ -457,12 +458,27 @@ Section Exec.
       | SObs label act =>
           let w1 := log (EvNotify label k payload (values w p)) w in
           match act, payload with
-          | Some q, v :: _ =>
+          | Some (false, q), v :: _ =>
               match lookup (w_props w1) q with
               | None => ok w1                                   (* the harness skips the write if q is gone *)
               | Some pr => match pr_updater pr with
                            | Some _ => throw w1 PxReadOnly
                            | None => rec_set w1 q v end
+              end
+          | Some (true, q), _ =>
+              match lookup (w_props w1) q with
+              | None => ok w1
+              | Some pr =>
+                  match pr_updater pr with
+                  | None => ok w1
+                  | Some b =>
+                      match destroy_binding w1 b with
+                      | (w2, Some e) => (w2, Some e)
+                      | (w2, None) => match lookup (w_props w2) q with
+                                      | Some pr2 => ok (set_props w2 (bind_key (w_props w2) q (prop_set_updater pr2 None)))
+                                      | None => throw w2 PxBad end
+                      end
+                  end
               end
           | _, _ => ok w1
           end
